@@ -20,11 +20,16 @@ UNITS = {
     "K": [{"k": "wfcb", "submit": {"ret": None}, "log": "in-submitter"}],
     "C": [{"k": "cb"}],
     "P": [{"k": "par", "cfg": {"cc": "all_completed"}, "branches": [[{"k": "step", "fn": {"ret": "A"}}], [{"k": "step", "fn": {"ret": "B"}}]]}],
+    # early completion: a branch with a completed inner step is left STARTED under the completed parallel
+    "Pe": [{"k": "par", "cfg": {"cc": "first"}, "branches": [
+        [{"k": "step", "fn": {"sleep": 1, "then": {"ret": "winner"}}}],
+        [{"k": "step", "fn": {"ret": "inner-done"}}, {"k": "step", "fn": {"sleep": 5, "then": {"ret": "late"}}}]]}],
     "M": [{"k": "map", "items": [1, 2], "cfg": {"cc": "all_completed"}, "body": [{"k": "step", "fn": {"item": True}}]}],
     "N": [{"k": "wfc", "init": 0, "decide": [{"cont": 1}, "stop"], "log": "in-check"}],
 }
 FEATURE = {"S": "step", "W": "wait", "R": "retried-step", "F": "caught-failed-step", "H": "child-context", "Hw": "child-context",
-           "K": "wait_for_callback", "C": "callback", "P": "parallel", "M": "map", "N": "wait_for_condition"}
+           "K": "wait_for_callback", "C": "callback", "P": "parallel", "M": "map", "N": "wait_for_condition",
+           "Pe": "parallel-early-completion"}
 
 
 def program(names):
@@ -42,7 +47,7 @@ def programs(tier):
     out = [program((a,)) for a in names]
     out += [program((a, b)) for a, b in itertools.product(names, repeat=2)]
     third = ["S", "W", "F", "H", "C"] if quick else names
-    first2 = ["S", "W", "R", "F", "H", "K", "P", "N"] if quick else names
+    first2 = ["S", "W", "R", "F", "H", "K", "P", "N", "Pe"] if quick else names
     out += [program((a, b, c)) for a in first2 for b in first2 for c in third]
     if not quick:
         four = ["S", "W", "F", "H"]
@@ -128,7 +133,7 @@ def space(tier):
 
 simcheck.install(globals(), "C17", [judge], space,
                  "programs: every sequence of <=2 units over {step, wait, retried step, caught failed step, child[step;step], "
-                 "child[step;wait;step], wait_for_callback, callback, parallel, map, wait_for_condition}, length 3 over 8x8x5 "
+                 "child[step;wait;step], wait_for_callback, callback, parallel, parallel with early completion, map, wait_for_condition}, length 3 over 8x8x5 "
                  "(quick) / all (thorough), length 4 over 4 kinds (thorough); a log call before, between and after the units "
                  "and inside every step/check/submitter body; histories: every suspension point and every single crash point "
                  "(length <=2), every pagination split (first page = 0..6 rows or EXECUTION only / +1, later pages of 1, 2 "
